@@ -111,7 +111,12 @@ def apply(an, body, obj, pick, valuegen_body):
     if kind == "none" or kind == "case_none":
         _set(o, path, None)
     elif kind == "int_limit":
-        _set(o, path, pick([info, info + 1, 2 ** 40]))
+        # also: the (valid) value of a wider sibling member that is too large for this one - the same number
+        # reaches the writer twice in a row, once into a field it fits and once into one it does not
+        parent = _get(o, path[:-1]) if len(path) > 1 else o
+        sib = [v for v in (parent.values() if isinstance(parent, dict) else parent)
+               if type(v) is int and v >= info]
+        _set(o, path, pick([info, info + 1, 2 ** 40] + sorted(set(sib))[:2]))
     elif kind == "fixed_len":
         cur = _get(o, path)
         delta = pick([-3, -2, -1, 1, 2, 3])
